@@ -504,7 +504,8 @@ func cmdReplay(args []string) int {
 	if len(args) < 1 {
 		fatal("usage: vcheck replay <file>")
 	}
-	out, status := runReplay(args[0])
+	file, _ := filepath.Abs(args[0])
+	out, status := runReplay(file)
 	fmt.Println(tail(out, 40))
 	fmt.Println("replay:", status)
 	if status == "confirmed" {
